@@ -76,7 +76,8 @@ RecvNext(s, x) ==
             LET r == Enforce(s, x, TRUE) IN
             IF r.k # "ok" /\ r.k # "dup" THEN {r.s}
             ELSE IF s = StResendRecv \/ x.extra = "badrange" \/ ~x.persist THEN {s}
-            ELSE {StCont, StResendRecv}                  \* replay completed (continuous) or interrupted
+            ELSE {StCont}        \* resend_request_received for the duration of the replay; both persisters end every
+                                 \* range retrieval with the "no more records" call, which sets continuous
       [] x.kind = "0" ->
             LET r == Enforce(s, x, TRUE) IN
             IF r.k # "ok" /\ r.k # "dup" THEN {r.s}
@@ -95,6 +96,9 @@ Next(s, x) ==
                            ELSE IF s = StTerm THEN {s} ELSE {StTestReqSent}
        [] x.op = "Recv" -> RecvNext(s, x))
 
-\* states the enumeration declares and no call ever enters
-NeverEntered == {StNotLoggedIn, StLogonRecv, StLogoffRecv, StSeqResetSent, StSeqResetRecv}
+\* states that exist only inside one call (set and left again before it returns), and states the enumeration declares
+\* and nothing ever sets
+Transient == {StNotLoggedIn, StLogonRecv, StResendRecv}
+Unused == {StLogoffRecv, StSeqResetSent, StSeqResetRecv}
+NeverEntered == Transient \cup Unused
 =============================================================================
